@@ -24,7 +24,10 @@ CONSTANTS N,          \* callers
           NT,         \* number of usable tags; NOTAG = NT
           MaxFaults,
           MaxRogue,   \* misbehaving peer replies allowed
-          FixUnknown
+          FixUnknown,
+          CtxWriteCloses  \* FALSE (the code): a request whose own context has already ended when the handle loop
+                          \* writes it fails alone (WriteFcall returns ctx.Err()); TRUE: the loop also shuts the
+                          \* transport down on such a write error (why-it-matters configuration)
 
 VARIABLES c,        \* caller -> [pc, tag, res]   pc: idle | offer | wait | ret ; res: "" | ok | err | closed | ctx | badtype
           outst,    \* handle loop: tag -> caller (0: free)
@@ -37,9 +40,11 @@ VARIABLES c,        \* caller -> [pc, tag, res]   pc: idle | offer | wait | ret 
           down,     \* connection failed / session cancelled
           faults, rogue,
           got,      \* ghost: caller -> src of the reply it was handed (0 none)
+          cx,       \* caller -> its own context has ended (the caller may not have noticed yet)
+          selfclosed, \* ghost: the transport shut itself down without a connection failure / session cancel
           act       \* output only: label of the last step
-vars == <<c, outst, hint, hl, rd, net, peer, seen, down, faults, rogue, got, act>>
-View == <<c, outst, hint, hl, rd, net, peer, seen, down, faults, rogue, got>>
+vars == <<c, outst, hint, hl, rd, net, peer, seen, down, faults, rogue, got, cx, selfclosed, act>>
+View == <<c, outst, hint, hl, rd, net, peer, seen, down, faults, rogue, got, cx, selfclosed>>
 A(a, i, k) == [a |-> a, i |-> i, k |-> k]
 
 Callers == 1..N
@@ -58,13 +63,13 @@ Init == /\ c = [i \in Callers |-> [pc |-> "idle", tag |-> NOTAG, res |-> ""]]
         /\ outst = [t \in Tags |-> 0] /\ hint = 0 /\ hl = "run"
         /\ rd = [pc |-> "read", tag |-> NOTAG, kind |-> "none", src |-> 0]
         /\ net = <<>> /\ peer = [t \in Tags |-> 0] /\ seen = {} /\ down = FALSE /\ faults = 0 /\ rogue = 0
-        /\ got = [i \in Callers |-> 0] /\ act = A("init", 0, "")
+        /\ got = [i \in Callers |-> 0] /\ cx = [i \in Callers |-> FALSE] /\ selfclosed = FALSE /\ act = A("init", 0, "")
 
 Closed == hl # "run"          \* t.closed is closed when handle returns
 
 Invoke(i) == /\ c[i].pc = "idle"
              /\ c' = [c EXCEPT ![i].pc = "offer"]
-             /\ UNCHANGED <<outst, hint, hl, rd, net, peer, seen, down, faults, rogue, got>>
+             /\ UNCHANGED <<outst, hint, hl, rd, net, peer, seen, down, faults, rogue, got, cx, selfclosed>>
              /\ act' = A("invoke", i, "")
 
 \* handle takes the request, allocates a tag and writes it (one critical section of the loop)
@@ -74,6 +79,10 @@ Dispatch(i) ==
      IF t = NOTAG THEN   \* tag pool depleted: the call fails
        /\ c' = [c EXCEPT ![i] = [pc |-> "ret", tag |-> NOTAG, res |-> "err"]]
        /\ UNCHANGED <<outst, hint, peer, seen>>
+     ELSE IF cx[i] THEN  \* the request's own context has ended: WriteFcall returns ctx.Err() without touching the
+                         \* wire; the entry is removed, the error goes to the caller, nobody else is disturbed
+       /\ c' = [c EXCEPT ![i] = [pc |-> "ret", tag |-> t, res |-> "ctx"]]
+       /\ hint' = t /\ UNCHANGED <<outst, peer, seen>>
      ELSE IF down THEN   \* WriteFcall fails: entry removed, error to the caller
        /\ c' = [c EXCEPT ![i] = [pc |-> "ret", tag |-> t, res |-> "closed"]]
        /\ hint' = t /\ UNCHANGED <<outst, peer, seen>>
@@ -83,7 +92,10 @@ Dispatch(i) ==
        /\ c' = [c EXCEPT ![i].pc = "wait", ![i].tag = t]
        /\ seen' = IF peer[t] # 0 THEN seen \cup {t} ELSE seen
        /\ peer' = [peer EXCEPT ![t] = i]
-  /\ UNCHANGED <<hl, rd, net, down, faults, rogue, got>>
+  /\ LET ctxwrite == cx[i] /\ AllocTag(outst, hint) # NOTAG IN
+     /\ hl' = IF CtxWriteCloses /\ ctxwrite THEN "exited" ELSE hl
+     /\ selfclosed' = (selfclosed \/ (CtxWriteCloses /\ ctxwrite /\ ~down))
+  /\ UNCHANGED <<rd, net, down, faults, rogue, got, cx>>
   /\ act' = A("dispatch", i, "")
 
 \* the peer answers a request it holds (any order); kind: ok | err | badtype
@@ -91,29 +103,29 @@ PeerReply(t, k) ==
   /\ peer[t] # 0 /\ ~down
   /\ net' = Append(net, [tag |-> t, kind |-> k, src |-> peer[t]])
   /\ peer' = [peer EXCEPT ![t] = 0]
-  /\ UNCHANGED <<c, outst, hint, hl, rd, seen, down, faults, rogue, got>>
+  /\ UNCHANGED <<c, outst, hint, hl, rd, seen, down, faults, rogue, got, cx, selfclosed>>
   /\ act' = A("reply", peer[t], k)
 \* misbehaviour: a reply with a tag it does not hold (never seen, or already answered)
 PeerRogue(t) ==
   /\ rogue < MaxRogue /\ peer[t] = 0 /\ ~down
   /\ rogue' = rogue + 1
   /\ net' = Append(net, [tag |-> t, kind |-> "ok", src |-> 0])
-  /\ UNCHANGED <<c, outst, hint, hl, rd, peer, seen, down, faults, got>>
+  /\ UNCHANGED <<c, outst, hint, hl, rd, peer, seen, down, faults, got, cx, selfclosed>>
   /\ act' = A("rogue", 0, "")
 
 ReaderRead == /\ rd.pc = "read" /\ net # <<>> /\ ~down
               /\ rd' = [pc |-> "offer", tag |-> Head(net).tag, kind |-> Head(net).kind, src |-> Head(net).src]
               /\ net' = Tail(net)
-              /\ UNCHANGED <<c, outst, hint, hl, peer, seen, down, faults, rogue, got>>
+              /\ UNCHANGED <<c, outst, hint, hl, peer, seen, down, faults, rogue, got, cx, selfclosed>>
               /\ act' = A("rd.read", 0, "")
 \* read error / EOF: the reader calls t.close() -> shutdown -> handle returns
 ReaderFail == /\ rd.pc = "read" /\ down
               /\ rd' = [rd EXCEPT !.pc = "exited"]
-              /\ UNCHANGED <<c, outst, hint, hl, net, peer, seen, down, faults, rogue, got>>
+              /\ UNCHANGED <<c, outst, hint, hl, net, peer, seen, down, faults, rogue, got, cx, selfclosed>>
               /\ act' = A("rd.fail", 0, "")
 ReaderAbort == /\ rd.pc = "offer" /\ (Closed \/ down)
                /\ rd' = [rd EXCEPT !.pc = "exited"]
-               /\ UNCHANGED <<c, outst, hint, hl, net, peer, seen, down, faults, rogue, got>>
+               /\ UNCHANGED <<c, outst, hint, hl, net, peer, seen, down, faults, rogue, got, cx, selfclosed>>
                /\ act' = A("rd.abort", 0, "")
 
 \* handle receives a reply from the reader
@@ -132,36 +144,43 @@ Deliver ==
                                            res |-> CASE rd.kind = "ok" -> "ok" [] rd.kind = "err" -> "err" [] OTHER -> "badtype"]]
                  /\ got' = [got EXCEPT ![i] = rd.src]
             ELSE UNCHANGED <<c, got>>   \* abandoned call: the reply is dropped
-  /\ UNCHANGED <<hint, net, peer, seen, down, faults, rogue>>
+  /\ UNCHANGED <<hint, net, peer, seen, down, faults, rogue, cx, selfclosed>>
   /\ act' = A("deliver", IF outst[rd.tag] # 0 THEN outst[rd.tag] ELSE 0, "")
 
 \* handle sees shutdown (reader exited) or the session context
 HandleExit == /\ hl = "run" /\ (rd.pc = "exited" \/ down)
               /\ hl' = "exited"
-              /\ UNCHANGED <<c, outst, hint, rd, net, peer, seen, down, faults, rogue, got>>
+              /\ UNCHANGED <<c, outst, hint, rd, net, peer, seen, down, faults, rogue, got, cx, selfclosed>>
               /\ act' = A("hl.exit", 0, "")
 
 \* a caller blocked in send() sees t.closed
 CallerClosed(i) == /\ c[i].pc \in {"offer", "wait"} /\ Closed
                    /\ c' = [c EXCEPT ![i].pc = "ret", ![i].res = "closed"]
-                   /\ UNCHANGED <<outst, hint, hl, rd, net, peer, seen, down, faults, rogue, got>>
+                   /\ UNCHANGED <<outst, hint, hl, rd, net, peer, seen, down, faults, rogue, got, cx, selfclosed>>
                    /\ act' = A("closed", i, "")
-\* the call's own context ends: it returns; its tag stays outstanding until answered
-CallCtxDone(i) == /\ c[i].pc \in {"offer", "wait"} /\ faults < MaxFaults
+\* the call's own context ends (cancel or deadline) ...
+CallCtxDone(i) == /\ c[i].pc \in {"offer", "wait"} /\ ~cx[i] /\ faults < MaxFaults
                   /\ faults' = faults + 1
-                  /\ c' = [c EXCEPT ![i].pc = "ret", ![i].res = "ctx"]
-                  /\ UNCHANGED <<outst, hint, hl, rd, net, peer, seen, down, rogue, got>>
+                  /\ cx' = [cx EXCEPT ![i] = TRUE]
+                  /\ UNCHANGED <<c, outst, hint, hl, rd, net, peer, seen, down, rogue, got, selfclosed>>
                   /\ act' = A("cancel", i, "")
+\* ... and the caller, blocked in one of send()'s two selects, notices: it returns; its tag (if it has one)
+\* stays outstanding until answered.  While still offering, the handle loop may take the request instead
+\* (Dispatch with cx[i]): Go's select picks among ready cases at random.
+CallCtxRet(i) == /\ c[i].pc \in {"offer", "wait"} /\ cx[i]
+                 /\ c' = [c EXCEPT ![i].pc = "ret", ![i].res = "ctx"]
+                 /\ UNCHANGED <<outst, hint, hl, rd, net, peer, seen, down, faults, rogue, got, cx, selfclosed>>
+                 /\ act' = A("ctxret", i, "")
 \* connection failure or session cancel
 ConnFail == /\ ~down /\ faults < MaxFaults
             /\ faults' = faults + 1 /\ down' = TRUE
-            /\ UNCHANGED <<c, outst, hint, hl, rd, net, peer, seen, rogue, got>>
+            /\ UNCHANGED <<c, outst, hint, hl, rd, net, peer, seen, rogue, got, cx, selfclosed>>
             /\ act' = A("fault", 0, "")
 
-Next == \/ \E i \in Callers : Invoke(i) \/ Dispatch(i) \/ CallerClosed(i) \/ CallCtxDone(i)
+Next == \/ \E i \in Callers : Invoke(i) \/ Dispatch(i) \/ CallerClosed(i) \/ CallCtxDone(i) \/ CallCtxRet(i)
         \/ \E t \in Tags : (\E k \in {"ok", "err", "badtype"} : PeerReply(t, k)) \/ PeerRogue(t)
         \/ ReaderRead \/ ReaderFail \/ ReaderAbort \/ Deliver \/ HandleExit \/ ConnFail
-Client == \/ \E i \in Callers : Dispatch(i) \/ CallerClosed(i)
+Client == \/ \E i \in Callers : Dispatch(i) \/ CallerClosed(i) \/ CallCtxRet(i)
           \/ ReaderRead \/ ReaderFail \/ ReaderAbort \/ Deliver \/ HandleExit
 Spec == Init /\ [][Next]_vars
 FairSpec == Spec /\ WF_vars(Client)
@@ -179,6 +198,10 @@ NeverNotag == \A i \in Callers : c[i].pc = "wait" => c[i].tag \in Tags
 NeverCrashes == hl # "crashed"
 \* C12: a call reports success only for a reply handed to it
 OkHasReply == \A i \in Callers : c[i].res = "ok" => (got[i] # 0 \/ rogue > 0)
+\* C12: a call whose own context ends disturbs no other call: the transport never shuts down on its own, and a
+\* call is told "closed" only after a connection failure / session cancel (or a crash, see NeverCrashes)
+NoSelfClose == ~selfclosed
+ClosedOnlyAfterFault == \A i \in Callers : c[i].res = "closed" => (down \/ hl = "crashed")
 \* liveness, C12: once the connection is down every started call returns
 AllReturnAfterDown == down ~> (\A i \in Callers : c[i].pc \in {"idle", "ret"})
 =============================================================================
